@@ -394,7 +394,19 @@ class Explorer:
         if isinstance(cond, SymBool):
             cond = cond.e
         if self.mode == "concrete":
-            ok = bool(cond)
+            if z3.is_expr(cond):
+                # a closed formula over the model's numbers: let z3 evaluate it
+                c2 = z3.simplify(cond)
+                if z3.is_true(c2):
+                    ok = True
+                elif z3.is_false(c2):
+                    ok = False
+                else:
+                    sol = z3.Solver()
+                    sol.add(z3.Not(cond))
+                    ok = sol.check() == z3.unsat
+            else:
+                ok = bool(cond)
             if not ok:
                 self.cfailed.append((what, detail))
             return ok
